@@ -519,6 +519,7 @@ def rules_new_clear(prog, res):
             for s in blk["stmts"]:
                 if s["k"] == "assign" and s["rv"]["k"] == "aggregate" and s["rv"].get("path") == MB:
                     builders.add(p)
+    builders -= prog.derived_clone_fns(MB)
     res.ob("T-new", "crate | MessageBuilder values are built only by MessageBuilder::new", builders == {MB + "::new"}, str(sorted(builders)))
     wf = wipe_functions(prog)
     bf = prog.fn(BUILD)
